@@ -15,7 +15,13 @@ LR = "prqlc/prqlc-parser/src/lexer/lr.rs"
 P_GENERIC = "prqlc/prqlc-parser/src/generic.rs"
 
 LABELS = ["SE1", "SE1f", "SE2", "SE2i", "SE2x", "SE2w", "SE3", "SE3f"]
-FUNCTIONS = ["static_eval_rq_operator", "static_eval_case", "maybe_static_eval"]
+FUNCTIONS = ["static_eval_rq_operator", "static_eval_case", "maybe_static_eval", "has_one_spelling"]
+OPTIONAL_FUNCTIONS = ["has_one_spelling"]     # the helper that names the kinds of literal whose comparison is folded; an inlined test is decided in the caller
+
+
+def DYNAMIC_LABELS():
+    import extract
+    return ["SE1k"] if re.search(r"\bfn has_one_spelling\b", extract.Extractor().read(STATIC_EVAL)) else []
 RLIMIT = 120
 
 ASSUMED = [
@@ -65,6 +71,7 @@ impl ExprKind {
 pub fn expr_new_lit(l: Literal) -> (r: Expr) ensures r.kind == ExprKind::Literal(l), { unimplemented!() }
 
 pub uninterp spec fn lit_eq(a: Literal, b: Literal) -> bool;
+pub open spec fn one_spelling(l: Literal) -> bool { l is Null || l is Integer || l is Float || l is Boolean || l is String || l is RawString }
 pub uninterp spec fn same_kind(a: Literal, b: Literal) -> bool;
 #[verifier::external_body] pub fn literal_eq(a: &Literal, b: &Literal) -> (r: bool) ensures r == lit_eq(*a, *b), { unimplemented!() }
 #[verifier::external_body] pub fn literal_ne(a: &Literal, b: &Literal) -> (r: bool) ensures r == !lit_eq(*a, *b), { unimplemented!() }
@@ -110,10 +117,12 @@ pub proof fn oracle_semantics()
         forall|k: ExprKind| #[trigger] is_op(k, "std.not"@, 1) ==> kval(k) == not3(val(arg(k, 0))),
         forall|k: ExprKind| #[trigger] is_op(k, "std.and"@, 2) ==> kval(k) == and3(val(arg(k, 0)), val(arg(k, 1))),
         forall|k: ExprKind| #[trigger] is_op(k, "std.or"@, 2) ==> kval(k) == or3(val(arg(k, 0)), val(arg(k, 1))),
-        forall|k: ExprKind| (#[trigger] is_op(k, "std.eq"@, 2) && arg(k, 0).kind is Literal && arg(k, 1).kind is Literal && same_kind(lit_of(arg(k, 0)), lit_of(arg(k, 1))))
-            ==> kval(k) == Val::Bool(lit_eq(lit_of(arg(k, 0)), lit_of(arg(k, 1)))),
-        forall|k: ExprKind| (#[trigger] is_op(k, "std.ne"@, 2) && arg(k, 0).kind is Literal && arg(k, 1).kind is Literal && same_kind(lit_of(arg(k, 0)), lit_of(arg(k, 1))))
-            ==> kval(k) == Val::Bool(!lit_eq(lit_of(arg(k, 0)), lit_of(arg(k, 1)))),
+        // equal values are equal texts only for the kinds with one spelling: a date, a time, a timestamp or an interval has several (`@12:00` / `@12:00:00`, `7days` / `1weeks`),
+        // so what `==` of two of those denotes is NOT their derived equality - nothing is said about it here
+        forall|k: ExprKind| (#[trigger] is_op(k, "std.eq"@, 2) && arg(k, 0).kind is Literal && arg(k, 1).kind is Literal && same_kind(lit_of(arg(k, 0)), lit_of(arg(k, 1)))
+            && one_spelling(lit_of(arg(k, 0)))) ==> kval(k) == Val::Bool(lit_eq(lit_of(arg(k, 0)), lit_of(arg(k, 1)))),
+        forall|k: ExprKind| (#[trigger] is_op(k, "std.ne"@, 2) && arg(k, 0).kind is Literal && arg(k, 1).kind is Literal && same_kind(lit_of(arg(k, 0)), lit_of(arg(k, 1)))
+            && one_spelling(lit_of(arg(k, 0)))) ==> kval(k) == Val::Bool(!lit_eq(lit_of(arg(k, 0)), lit_of(arg(k, 1)))),
         forall|k: ExprKind| #[trigger] is_op(k, "std.neg"@, 1) ==> kval(k) == neg_val(val(arg(k, 0))),
         forall|i: i64| i > i64::MIN ==> #[trigger] neg_val(lit_val(Literal::Integer(i))) == lit_val(Literal::Integer((-i) as i64)),
         forall|f: f64| #[trigger] neg_val(lit_val(Literal::Float(f))) == lit_val(Literal::Float(fneg(f))),
@@ -196,6 +205,14 @@ def build(X):
     """)
     ro.insert_at_body_start("proof { oracle_semantics(); }", "oracle equations brought into scope")
 
+    helper = ""
+    if re.search(r"\bfn has_one_spelling\b", X.read(STATIC_EVAL)):
+        hs = X.fn(STATIC_EVAL, "has_one_spelling").pub_all()
+        hs.ret_name("r")
+        hs.contract("""
+        ensures r == one_spelling(*literal), // @SE1k
+        """)
+        helper = hs.text + "\n"
     ca = X.fn(STATIC_EVAL, "static_eval_case").pub_all()
     ca.inline_local_callees(X, STATIC_EVAL, exclude=("static_eval_case", "static_eval_rq_operator"))
     ca.rewrite_re("R5", r"\bExpr::new\(", "expr_new_lit(", count=None, why="Expr::new(<literal>)")
@@ -240,7 +257,7 @@ def build(X):
             (expr.kind is RqOperator) ==> (r->Ok_0.id == expr.id && r->Ok_0.span == expr.span), // @SE3f
     """)
     res = "pub struct Resolver { pub _p: u8 }\nimpl Resolver {\n" + ms.text + "\n}\n"
-    return PRELUDE + types + ORACLE + ro.text + "\n" + ca.text + "\n" + res + "\n} // verus!\nimpl core::fmt::Debug for ExprKind { fn fmt(&self, _f: &mut core::fmt::Formatter<'_>) -> core::fmt::Result { unimplemented!() } }\nfn main() {}\n"
+    return PRELUDE + types + ORACLE + helper + ro.text + "\n" + ca.text + "\n" + res + "\n} // verus!\nimpl core::fmt::Debug for ExprKind { fn fmt(&self, _f: &mut core::fmt::Formatter<'_>) -> core::fmt::Result { unimplemented!() } }\nfn main() {}\n"
 
 
 # ----------------------------------------------------------------------------- replay / sweep on the real compiler + SQLite
@@ -249,7 +266,9 @@ SWEEP_DOC = "constant sub-expressions of every folded operator and of `case`, co
 _CASES = [  # (PRQL expression, expected SQLite value, obligation)
     ("!true", 0, "SE1"), ("!false", 1, "SE1"), ("-(-3)", 3, "SE1"), ("1 == 1", 1, "SE1"), ("1 == 2", 0, "SE1"), ("1 != 2", 1, "SE1"),
     ("'a' == 'a'", 1, "SE1"), ("'a' != 'b'", 1, "SE1"), ("'x' == r'x'", 1, "SE1"), ("r'it' != \"it\"", 0, "SE1"), ("r'C:\\temp' == 'C:\\\\temp'", 1, "SE1"), ("r'a' == r'a'", 1, "SE1"),
-    ("'1' == 1", 0, "SE1"), ("1 == 1.0", 1, "SE1"), ("null == null", 1, "SE1"), ("null != null", 0, "SE1"),
+    ("'1' == 1", 0, "SE1"), ("1 == 1.0", 1, "SE1"),
+    # dates, times and intervals are kept as their text: equal values can be spelled differently, so their comparison is the database's business
+    ("@12:00 == @12:00:00", 1, "SE1"), ("@12:00 != @12:00:00", 0, "SE1"), ("@2020-01-01 == @2020-01-01", 1, "SE1"), ("@2020-01-02 == @2020-01-01", 0, "SE1"), ("null == null", 1, "SE1"), ("null != null", 0, "SE1"),
     ("true && false", 0, "SE1"), ("true && true", 1, "SE1"), ("false || true", 1, "SE1"), ("false || false", 0, "SE1"),
     ("null ?? 3", 3, "SE1"), ("null ?? a", 7, "SE1"), ("(a == null) && true", 0, "SE1"), ("true && (n == 1)", None, "SE1"), ("false || (n == 1)", None, "SE1"),
     ("case [false => 1, true => 2, a > 1 => 3]", 2, "SE2"), ("case [false => 1]", None, "SE2"), ("case [a > 100 => 1, true => 2]", 2, "SE2"),
